@@ -362,16 +362,36 @@ def c29_scenarios(rng, thorough):
     return must + extra
 
 
+def tlc_parallel(ctx, jobs):
+    """jobs: [(name, module, cfg, timeout)] run concurrently, each in a private scratch area; returns {name: TLCResult}."""
+    import concurrent.futures
+    ctx.npar = getattr(ctx, "npar", 0) + 1
+    w = max(2, vlib.NCPU // max(1, len(jobs)))
+    with concurrent.futures.ThreadPoolExecutor(max_workers=len(jobs)) as ex:
+        futs = {name: ex.submit(vlib.tlc, _SubCtx(ctx, "mc%d_%s" % (ctx.npar, name)), module, cfg, "check", w, timeout)
+                for (name, module, cfg, timeout) in jobs}
+        return {name: fu.result() for name, fu in futs.items()}
+
+
 def c29_model(ctx, thorough):
-    cfg = "CONSTANT Progs <- %s\nINIT Init\nNEXT Next\nINVARIANT C29\nINVARIANT NoDeadlock\n"
-    mc = vlib.tlc(ctx, "MC_LogPipe", cfg % ("MCAll" if thorough else "MCQuick"), timeout=1500)
+    cfg = "CONSTANT Progs <- %s\nINIT Init\nNEXT Next\nINVARIANT %s\nINVARIANT NoDeadlock\n"
+    r = tlc_parallel(ctx, [
+        ("main", "MC_LogPipe", cfg % ("MCAll" if thorough else "MCQuick", "C29"), 1500),
+        # the fixed-code variant of the gate (reports/conc-fix-1.diff: one mutex) must satisfy C29 with no waiver
+        ("fixed", "MC_LogPipe", cfg % ("MCFixed" if thorough else "MCFixedQuick", "C29Strict"), 900),
+        # every recorded finding must be reachable in the model
+        ("order", "MC_LogPipe", cfg % ("MCGateSeq", "NoOrderFinding"), 600),
+        ("lost", "MC_LogPipe", cfg % ("MCGateOverlap", "NoLostFinding"), 600)])
+    mc = r["main"]
     if mc.violated:
         raise vlib.Inconclusive("model violates %s beyond the recorded findings -- spec error, no verdict" % mc.violated)
-    # every recorded finding must be reachable in the model, and only where its tag allows
-    for inv, progs in (("NoOrderFinding", "MCGateSeq"), ("NoLostFinding", "MCGateOverlap")):
-        r = vlib.tlc(ctx, "MC_LogPipe", (cfg % progs).replace("INVARIANT C29\n", "INVARIANT %s\n" % inv), timeout=600)
-        if not r.violated:
-            raise vlib.Inconclusive("recorded finding (%s) is not reachable in the model" % inv)
+    if r["fixed"].violated:
+        raise vlib.Inconclusive("the fixed-code variant of the model violates %s -- spec error, no verdict" % r["fixed"].violated)
+    for k in ("order", "lost"):
+        if not r[k].violated:
+            raise vlib.Inconclusive("recorded finding (%s) is not reachable in the model" % k)
+    mc.generated += r["fixed"].generated
+    mc.distinct += r["fixed"].distinct
     return mc
 
 
@@ -395,8 +415,9 @@ def run_c29(ctx, replay):
         "model_constants": ("gate: 1 writer x 3 lines, 2 writers x 2 lines, 3 writers x 1 line, each with a Flush thread; ring sizes "
                             "1..3: 2 writers x 2 lines, 1 writer x 4 lines, 3 writers x 1 line, each with a RegisterHandler thread"
                             if thorough else
-                            "gate: 1 writer x 2 lines, 2 writers (2+1 lines), 3 writers x 1 line, each with a Flush thread; ring sizes "
-                            "1..3: 2 writers (2+1 lines), 1 writer x 4 lines, each with a RegisterHandler thread"),
+                            "gate: 1 writer x 2 lines, 2 writers (2+1 lines), each with a Flush thread; ring sizes 1..3: 2 writers "
+                            "(2+1 lines), sizes 2..3: 1 writer x 4 lines, each with a RegisterHandler thread")
+                           + "; the same gate programs on the fixed-code variant (one mutex) with no waiver",
         "traces_validated_against_impl": rep.traces, "trace_lines": rep.lines, "divergences": len(rep.diverged),
         "evaluations": summary["schedules"], "distinct_nontrivial": rep.traces,
         "scenarios": summary["scenarios"], "scenarios_with_complete_dfs": summary["dfs_complete"],
@@ -478,17 +499,19 @@ def c28_scenarios(rng, thorough):
 
 def c28_model(ctx, thorough):
     cfg = "CONSTANT Scens <- %s\nINIT Init\nNEXT Next\nINVARIANT %s\nINVARIANT NoDeadlock\n"
-    mc = vlib.tlc(ctx, "MC_RPCClient", cfg % ("MCAll" if thorough else "MCQuick", "C28"), timeout=1500)
+    r = tlc_parallel(ctx, [
+        ("main", "MC_RPCClient", cfg % ("MCAll" if thorough else "MCQuick", "C28"), 1500),
+        ("noflight", "MC_RPCClient", cfg % ("MCNoFlight", "C28Strict"), 600),
+        ("finding", "MC_RPCClient", cfg % ("MCFinding", "C28Strict"), 600)])
+    mc = r["main"]
     if mc.violated:
         raise vlib.Inconclusive("model violates %s beyond the recorded finding -- spec error, no verdict" % mc.violated)
-    r = vlib.tlc(ctx, "MC_RPCClient", cfg % ("MCNoFlight", "C28Strict"), timeout=600)
-    if r.violated:
-        raise vlib.Inconclusive("model violates C28 with no record in flight (%s) -- spec error, no verdict" % r.violated)
-    mc.generated += r.generated
-    mc.distinct += r.distinct
-    r = vlib.tlc(ctx, "MC_RPCClient", cfg % ("MCFinding", "C28Strict"), timeout=600)
-    if not r.violated:
+    if r["noflight"].violated:
+        raise vlib.Inconclusive("model violates C28 with no record in flight (%s) -- spec error, no verdict" % r["noflight"].violated)
+    if not r["finding"].violated:
         raise vlib.Inconclusive("the recorded finding (send on a channel closed between lookup and send) is not reachable in the model")
+    mc.generated += r["noflight"].generated
+    mc.distinct += r["noflight"].distinct
     return mc
 
 
